@@ -739,7 +739,13 @@ void File::uncompressedFile2ReadWriteQueue() {
     const std::streampos objectBegin = m_uncompressedFile.tellg();
 
     /* read object */
-    obj->read(m_uncompressedFile);
+    try {
+        obj->read(m_uncompressedFile);
+    } catch (...) {
+        /* a corrupt length field makes read() throw; the object is still ours */
+        delete obj;
+        throw;
+    }
     if (!m_uncompressedFile.good()) {
         delete obj;
         throw Exception("File::uncompressedFile2ReadWriteQueue(): Read beyond end of file.");
